@@ -148,10 +148,18 @@ def run_hypothesis(pid, cell, strategy, body, n, shrink=True):
     import hypothesis
     from hypothesis import given
 
+    # Hypothesis always starts the generate phase with the all-simplest example, which is
+    # the same point for every seed: it is drawn but not evaluated, and one more example
+    # is requested instead, so that every evaluated case is a seeded random draw.
+    state = {"first": True}
+
     @hypothesis.seed(env.seed_for(pid, cell["id"]))
-    @hyp_settings(n, shrink)
+    @hyp_settings(n + 1, shrink)
     @given(strategy)
     def test(case):
+        if state["first"]:
+            state["first"] = False
+            return
         body(case)
 
     try:
